@@ -491,6 +491,52 @@ def _aff_loop(src):
     return init, retry, grow
 
 
+# ---- how the native affinity setter holds a CPU number (Model/C18Num.lean: `heldAs bits`) -------------------------
+_C_TYPE_WORDS = r"(?:unsigned|signed|long|short|int|char|Py_ssize_t|ssize_t|size_t|pid_t|u?int\d+_t|intptr_t|uintptr_t)"
+_C_SIGNED_BITS = {"long": 64, "long int": 64, "int long": 64, "signed long": 64, "signed long int": 64, "long long": 64,
+                  "long long int": 64, "Py_ssize_t": 64, "ssize_t": 64, "int64_t": 64, "intptr_t": 64,
+                  "int": 32, "signed int": 32, "signed": 32, "int32_t": 32, "pid_t": 32,
+                  "short": 16, "short int": 16, "signed short": 16, "int16_t": 16, "signed char": 8, "int8_t": 8}
+
+
+def _c_signed_bits(t):
+    t = " ".join(t.split())
+    if t not in _C_SIGNED_BITS:
+        raise NotRecognised("CPU number held in / cast to %r: not a signed integer type the model knows" % t)
+    return _C_SIGNED_BITS[t]
+
+
+def _cpu_num_bits(src):
+    """Width in bits of the signed C integer a CPU number is held in between `PyLong_AsLong(item)` and `CPU_SET` in
+    psutil_proc_cpu_affinity_set: the narrowest of the declared type of the variable that receives the conversion, a
+    cast on the conversion and a cast on the argument of CPU_SET. Recognised shape: ONE conversion
+    `[T] v = [(T2)] PyLong_AsLong(x);` and ONE `CPU_SET([(T3)] v, …)` with the same `v`; anything else (another
+    converter, arithmetic on the number, an unsigned type) is NotRecognised."""
+    body = _strip_c_comments(_c_function(src, "psutil_proc_cpu_affinity_set"))
+    convs = list(re.finditer(r"\b(\w+)\s*=\s*(?:\(\s*([\w ]+?)\s*\)\s*)?(PyLong_As\w+|_PyLong_As\w+|PyNumber_As\w+|PyLong_Check\w*)\s*\(", body))
+    if len(convs) != 1 or convs[0].group(3) != "PyLong_AsLong":
+        raise NotRecognised("conversion of the CPU number in psutil_proc_cpu_affinity_set")
+    var, cast = convs[0].group(1), convs[0].group(2)
+    if len(re.findall(r"\b%s\s*(?:[-+*/%%&|^]|<<|>>)?=(?!=)" % re.escape(var), body)) != 1 or \
+            re.search(r"(?:\+\+|--)\s*%s\b|\b%s\s*(?:\+\+|--)" % (re.escape(var), re.escape(var)), body):
+        raise NotRecognised("the CPU number is assigned more than once")
+    decl = re.search(r"\b((?:%s\s+)+)(?:\w+\s*(?:=[^,;]*)?,\s*)*%s\s*[,;=]" % (_C_TYPE_WORDS, re.escape(var)), body)
+    if not decl:
+        raise NotRecognised("declaration of %s" % var)
+    widths = [_c_signed_bits(decl.group(1))]
+    if cast:
+        widths.append(_c_signed_bits(cast))
+    uses = re.findall(r"\bCPU_SET(?:_S)?\s*\(\s*([^,]*?)\s*,", body)
+    if len(uses) != 1:
+        raise NotRecognised("CPU_SET in psutil_proc_cpu_affinity_set")
+    m = re.fullmatch(r"(?:\(\s*([\w ]+?)\s*\)\s*)?%s" % re.escape(var), uses[0])
+    if not m:
+        raise NotRecognised("CPU_SET(%s, …): not the converted number" % uses[0])
+    if m.group(1):
+        widths.append(_c_signed_bits(m.group(1)))
+    return min(widths)
+
+
 # ---- which process does each form address? (Model/C18Who.lean: `Routing`) -----------------------------------------
 #
 # Every call of a primitive that acts on a process — the extension's entry points, `resource.prlimit`, and the ones that
@@ -741,6 +787,8 @@ def facts(snap, F):
     F.try_add("affinityGetGrowth", "Nat × Nat",
               lambda: "(%s, %s)" % tuple(extract.lean_nat(x) for x in loop()[2]),
               "(mul, add): the next mask has `ncpus * mul + add` CPUs; (2, 0) = doubling, (1, 0) = the mask never grows")
+    F.try_add("affinitySetCpuBits", "Nat", lambda: extract.lean_nat(_cpu_num_bits(procc())),
+              "psutil_proc_cpu_affinity_set: width in bits of the signed C integer that holds a CPU number between PyLong_AsLong(item) and CPU_SET (declared type of the variable, casts on the way); 64 = a C long keeps every number PyLong_AsLong delivers, anything narrower wraps a number >= 2^(bits-1) onto another one before the -1 test and CPU_SET see it")
     rt = lambda: get("rt", lambda: _routing(linux(), init()))  # noqa: E731
     for name, group, kind in _ROUTE_FACTS:
         F.try_add(name, "Nat", (lambda g=group, k=kind: extract.lean_nat(_route_code(rt(), g, k))),
@@ -1468,6 +1516,46 @@ def exhaustive_histories(tier):
     # PID 0: rlimit refuses it; the other calls reach the *calling* process
     for req in (R_rl(3), R_rl(3, (1, 2)), R_rl(3, (1,)), R_nice(), R_nice(4), R_ionice(), R_ionice(2, 3)):
         yield "pid0", mk_world(), [op(0, req), op(SELF_PID, getter(req)), op(T_PID, getter(req))]
+
+
+def magnitude_numbers(eligible, rng, n_random, full=True):
+    """Seeded round 5 (change C01-7): CPU numbers of every MAGNITUDE. For an eligible CPU `a`: a + 2^j for every j in
+    4..63 and a - 2^j for j in 31..63 (numbers that become `a` again when held in j bits — int, short, char, a `% 1024`,
+    an unsigned view; j = 63 leaves the C long), a + k * 2^32 and free numbers in [2^31, 2^63) from the PRNG."""
+    out = []
+    aliases = [eligible[0]] if len(eligible) == 1 else [eligible[0], eligible[-1]]
+    for n_a, a in enumerate(aliases):
+        js = range(4, 64) if (full or n_a == 0) else (8, 10, 16, 31, 32, 33, 62)
+        out += [a + 2**j for j in js]
+        out += [a - 2**j for j in (range(31, 64) if (full or n_a == 0) else (32, 63))]
+    for _ in range(n_random):
+        out.append(rng.choice(eligible) + rng.randrange(1, 2**31) * 2**32)
+        out.append(rng.randrange(2**31, 2**63))
+    return out
+
+
+def magnitude_ops(pid, eligible, rng, n_random, full=True):
+    """Each number alone (no eligible CPU named: ValueError, nothing changes) and, for some, next to an eligible CPU; a get
+    after each; the process starts away from the CPU the number would collapse onto."""
+    ops = []
+    start = [eligible[-1]]
+    ops += [op(pid, R_aff(start)), op(pid, R_aff())]
+    for i, n in enumerate(magnitude_numbers(eligible, rng, n_random, full)):
+        ops += [op(pid, R_aff([n])), op(pid, R_aff())]
+        if i % 7 == 3 and len(eligible) >= 2:
+            ops += [op(pid, R_aff([eligible[-1], n])), op(pid, R_aff()), op(pid, R_aff(start)), op(pid, R_aff())]
+    return ops
+
+
+def magnitude_histories(rng, tier):
+    """The same numbers against the simulated kernel (what the Python layers do with them before the native call)."""
+    worlds = [("plain", mk_world(ncpu=4, affinity=[2, 3])), ("cpuset", mk_world(ncpu=6, cpuset=[0, 1, 4], affinity=[4])),
+              ("hole", mk_world(ncpu=6, online=[0, 2, 3, 5], affinity=[5]))]
+    for name, w in worlds:
+        el = sorted(set(w["procs"][0]["cpuset"]) & set(w.get("online", range(w["ncpu"]))))
+        ops = magnitude_ops(T_PID, el, rng, 10 if tier == "quick" else 200, full=(name == "plain" or tier != "quick"))
+        for i in range(0, len(ops), 12):
+            yield {"world": w, "ops": ops[:2] + ops[i:i + 12] if i else ops[:12], "mode": "sim", "tag": "magnitude"}
 
 
 def F(req, **forms):
@@ -2764,6 +2852,13 @@ def check_live(ctx, res):
         n, ok = run_live(ctx, res, live, env, T, S, ops, "live", block=False)
         done += n
         if ok:
+            # seeded round 5 (C01-7): CPU numbers of every magnitude through the REAL native setter and the real system
+            # call; the kernel's answer (os.sched_getaffinity) after every call is what is compared
+            mops = magnitude_ops(T, env["eligible"], ctx.rng, ctx.n(12, 300), full=(ctx.tier != "quick"))
+            mops = [dict(o, mode=ctx.rng.choice(["plain", "plain", "oneshot", "second"])) for o in mops]
+            n, ok = run_live(ctx, res, live, env, T, S, mops, "live-magnitude", block=False)
+            done += n
+        if ok:
             # the same child, now inside ONE warm oneshot block: set, then get in the same block shows the new value
             n, ok = run_live(ctx, res, live, env, T, S, live_block_ops(env, live.os_state(T, env["eligible"])),
                              "live-block", block=True)
@@ -2860,6 +2955,8 @@ def correspond(ctx, res):
         for h in extension_histories(ctx.rng):
             hists.append(h)
             n_ext += 1
+        for h in magnitude_histories(ctx.rng, ctx.tier):
+            hists.append(with_modes(ctx.rng, h))
         n_caller = 0
         for h, exh in caller_histories(ctx.rng, ctx.n(400, 8000)):
             hists.append(h)
@@ -2929,9 +3026,26 @@ def shrink(ctx, d):
     return dict(d, input=dict(inp, ops=small[:i + 1], source="shrunk"), impl=im, model=m["model"], spec=m["spec"])
 
 
+def _replay_live_ops(ctx, inp, r2):
+    """The recorded calls of a live-magnitude witness on a fresh child of this host (CPU numbers are plain ints)."""
+    live = Live(ctx)
+    if not live.ok:
+        return False
+    try:
+        env = live.probe()
+        T, S = live.spawn(), live.spawn()
+        ops = [dict(o, pid=T) for o in inp["ops"]]
+        run_live(ctx, r2, live, env, T, S, ops, "live-magnitude", block=False)
+    finally:
+        live.close()
+    return any(x["kind"] in ("spec", "model") and not x.get("finding") for x in r2.disagreements)
+
+
 def replay(ctx, rp, res):
     inp = rp["input"]
     if inp.get("mode") == "live":
+        if inp.get("source") == "live-magnitude":
+            return _replay_live_ops(ctx, inp, type(res)())
         # a live witness is replayed on a fresh child: same requests, same comparison
         r2 = type(res)()
         check_live(ctx, r2)
